@@ -13,6 +13,8 @@ mod suite_db;
 mod suite_fault;
 mod suite_filter;
 mod suite_lock;
+mod suite_proto;
+mod suite_wfault;
 mod suite_log;
 mod suite_sched;
 mod suite_table;
@@ -49,6 +51,9 @@ fn main() {
         "vfn" => suite_version::run_vfn,
         "dbhist" => suite_db::run_dbhist,
         "crash" => suite_crash::run_crash,
+        "recover" => suite_crash::run_recover,
+        "proto" => suite_proto::run_proto,
+        "wfault" => suite_wfault::run_wfault,
         "fault" => suite_fault::run_fault,
         "corrupt" => suite_corrupt::run_corrupt,
         "sched" => suite_sched::run_sched,
